@@ -490,11 +490,14 @@ func (s *Writer) loadSnapshot(epoch uint64) (*Snapshot, error) {
 			return nil, fmt.Errorf("error reading snapshot CRC: %w", err)
 		}
 		if !bytes.Equal(computedCRCBytes, fileCRCBytes) {
+			// fileCRCBytes may alias the memory-mapped file: build the
+			// error before the mapping is released by closer.Close()
+			err = fmt.Errorf("CRC mismatch loading snapshot %d: computed: %x file: %x",
+				epoch, computedCRCBytes, fileCRCBytes)
 			if closer != nil {
 				_ = closer.Close()
 			}
-			return nil, fmt.Errorf("CRC mismatch loading snapshot %d: computed: %x file: %x",
-				epoch, computedCRCBytes, fileCRCBytes)
+			return nil, err
 		}
 	}
 	if closer != nil {
